@@ -311,6 +311,9 @@ def m_copy(I, e, args, kws):
     x = args[0]
     out = x.copy(term=mk_term("copy", x.term), fresh="FRESH")
     out.items = None
+    if isinstance(x.fresh, tuple) and x.fresh[1] and x.tag("kind") == "ndarray":
+        out.tags["dtype_from"] = frozenset(x.fresh[1])        # a copy keeps the element type of the caller's array
+        out.tags["dtype_copy"] = True
     return out
 
 
@@ -320,7 +323,7 @@ def m_astype(I, e, args, kws):
     out = x.copy(term=mk_term("astype", x.term), fresh="FRESH")
     out.items = None
     dt = args[1] if len(args) > 1 else kws.get("dtype")
-    _dtype_cast(I, e, out, x, dt)
+    _dtype_cast(I, e, out, x, dt, computed=bool(x.tag("floating")))
     if dt is not None and (dt.tag("builtin") == "int" or dt.tag("exttype") in ("numpy.int64", "numpy.int32", "numpy.intp") or (dt.known and dt.const in ("int", "int64", "i8"))) and x.tag("sum_dim") is None and not x.tag("indices") and x.tag("kind") == "ndarray" \
             and not x.tag("boolarr"):
         out.tags["rounded"] = "trunc"          # truncation of a real-valued array: sums are not preserved
@@ -372,6 +375,12 @@ def m_ravel(I, e, args, kws):
     if name == "flatten":
         out.fresh = "FRESH"
     s = x.shape
+    od = kws.get("order") or (args[1] if len(args) > 1 and name != "squeeze" else None)
+    if name != "squeeze" and od is not None and od.known and od.const in ("K", "A", "F") and (s is None or s.ell or len(s.axes) > 1):
+        I.type_error(e, "SHAPE", (f"{name}(order={od.const!r}) flattens in an order that depends on the memory layout of the array (a "
+                                  f"transposed view / Fortran-ordered input is legal): the sample-major stacking (row 0, row 1, …) is not "
+                                  f"guaranteed") if od.const != "F" else
+                                 f"{name}(order='F') flattens column-major: rows of different samples are interleaved", sub="stack")
     if name == "squeeze":
         out.shape = None
     elif s is not None and not s.ell:
@@ -477,6 +486,16 @@ def m_transpose(I, e, args, kws):
 
 
 # =================================================================== numpy: elementwise
+def lossy(I, e, out, x, how):
+    """a non-injective elementwise map (clamp, rounding) of x: what is computed from the result depends on x only THROUGH that map.
+    The data origins of x are renamed o -> o|how, so that every rule demanding 'o reaches …' reports the detour."""
+    xd = x.flat().data
+    ren = frozenset(o if "|" in o or o.startswith(("sol#", "par#", "xsample@", "pick@", "entropy@")) else f"{o}|{how}" for o in xd)
+    out.data = frozenset(o for o in out.data if o not in xd) | ren
+    I.emit("lossy_map", e, of=x, how=how)
+    return out
+
+
 def _elementwise(I, e, xs, unit=None, sign=None, frame=None, lin_from=None):
     out = mk(xs, fresh="FRESH", tags={"kind": "ndarray", "notstr": True})
     out.shape = broadcast_shapes(I, e, xs)
@@ -531,6 +550,8 @@ def m_round(I, e, args, kws):
     nm = M.norm_text(e.func).split(".")[-1]
     out.tags["rounded"] = "nearest" if nm in ("round", "around", "round_", "rint") else "trunc"
     out.tags.pop("sum_dim", None)
+    if x.tag("kind") == "ndarray" and not x.known:
+        lossy(I, e, out, x, "round")          # a quantisation: different inputs, same output
     return out
 
 
@@ -576,7 +597,19 @@ def m_minmax2(I, e, args, kws):
     out = _elementwise(I, e, [a, b], unit=u, frame=a.frame if a.frame == b.frame else None)
     from .values import join_sign
     out.sign = join_sign(a.sign, b.sign)
+    for x_, bound in ((a, b), (b, a)):
+        ex = bound.tag("extremum")
+        if ex is not None and (bound.shape is None or bound.shape.rank == 0) and ex[1].term is not None and ex[1].term == x_.term:
+            # np.maximum(t, np.max(t)): every entry is lifted to the one extremum of the whole vector
+            out.tags["filled_with_extremum"] = ex
+    for x_, bound in ((a, b), (b, a)):
+        if bound.known and _num_lit(bound.const) and not x_.known and x_.tag("kind") == "ndarray":
+            lossy(I, e, out, x_, "clamp")          # np.maximum(x, 0): x clamped at a constant
     return out
+
+
+def _num_lit(c):
+    return isinstance(c, (int, float)) and not isinstance(c, bool)
 
 
 @model("numpy.where")
@@ -584,6 +617,17 @@ def m_where(I, e, args, kws):
     if len(args) == 1:
         return mk(args, fresh="FRESH")
     c, a, b = args
+    # the configuration decides the mask: np.where(np.isfinite(ub), ub, v) with ub declared all-finite / all-infinite
+    pred = c.tag("pred")
+    if pred is not None and pred[0] == "isfinite" and pred[1].tag("finite") is not None:
+        pick = a if pred[1].tag("finite") else b
+        out = _elementwise(I, e, [c, pick], unit=pick.unit, frame=pick.frame, sign=pick.sign)
+        keep(out, pick, *LIN_TAGS)
+        if pick.known and _num_lit(pick.const):
+            out.tags["poly"] = {(): float(pick.const)}
+            out.tags["deg"] = {}
+        out.tags["where_decided"] = pred[1].tag("finite")
+        return out
     u = None
     if a.unit is not None and b.unit is not None:
         ok, u = ueq(a.unit, b.unit)
@@ -607,7 +651,10 @@ def m_clip(I, e, args, kws):
             ok, _ = ueq(x.unit, b.unit)
             if not ok:
                 I.type_error(e, "QTY", f"clip of [{ustr(x.unit)}] at a bound of [{ustr(b.unit)}]")
-    return _elementwise(I, e, args, unit=x.unit, frame=x.frame)
+    out = _elementwise(I, e, args, unit=x.unit, frame=x.frame)
+    if x.tag("kind") == "ndarray" and not x.known:
+        lossy(I, e, out, x, "clamp")
+    return out
 
 
 @model("numpy.multiply")
@@ -698,6 +745,8 @@ def m_sum(I, e, args, kws):
     x = args[0]
     if x.tag("simplex_rows") and axis_arg(args, kws, 1, None) in (-1, 1):
         out.tags["ones"] = True
+    if axis_arg(args, kws, 1, None) in (-1, 1) and x.term is not None:
+        out.tags["rowsum_of"] = (x.term, x.sign)
     return out
 
 
@@ -716,7 +765,7 @@ def m_minmax(I, e, args, kws):
     out.tags["offset_id"] = ("off", I.fr.fn.qual, e.lineno, e.col_offset)
     name = M.norm_text(e.func).split(".")[-1]
     out.tags["extremum"] = (name, args[0])
-    I.emit("extremum", e, name=name, arg=args[0], result=out)
+    I.emit("extremum", e, name=name, arg=args[0], result=out, initial=kws.get("initial"))
     return out
 
 
@@ -752,6 +801,14 @@ def m_allany(I, e, args, kws):
     if cmp_ is not None and name == "all" and cmp_[0] == "Eq" and cmp_[2].known and cmp_[2].const == 0 \
             and axis_arg(args, kws, 1, None) in (-1, 1):
         out.tags["zero_row_mask_of"] = cmp_[1].term        # rows that are entirely zero
+    if cmp_ is not None and cmp_[0] in ("Eq", "NotEq") and cmp_[2].known and cmp_[2].const == 0 and axis_arg(args, kws, 1, None) in (-1, 1):
+        # which rows a boolean row mask selects: all(x == 0) the all-zero rows, any(x != 0) their complement,
+        # any(x == 0) rows with SOME zero coordinate, all(x != 0) rows without any
+        out.tags["row_mask"] = ({("all", "Eq"): "zero_rows", ("any", "NotEq"): "nonzero_rows", ("any", "Eq"): "rows_with_a_zero",
+                                 ("all", "NotEq"): "rows_without_zero"}[(name, cmp_[0])], cmp_[1].term)
+        if out.tags["row_mask"][0] == "nonzero_rows":
+            out.tags["zero_row_mask_of"] = cmp_[1].term
+            out.tags["zero_row_mask_inverted"] = True
     if cmp_ is not None and name == "all" and cmp_[0] == "GtE" and cmp_[2].known and cmp_[2].const == 0:
         if cmp_[1].sign in ("NONNEG", "POS"):
             out.const = True
@@ -1352,6 +1409,10 @@ def object_method(I, e, base, attr, args, kws):
             return m_pint_to(I, e, [base] + args, kws)
         if attr == "check":
             return mk([base] + args, tags={"kind": "bool"})
+        if attr == "astype":
+            r = m_astype(I, e, [base] + args, kws)       # a Quantity forwards astype to its magnitude
+            r.tags["kind"] = "pintq"
+            return r
     I.emit("opaque_method", e, base=base, attr=attr, args=args, kws=kws)
     return out
 
@@ -1472,6 +1533,8 @@ def cvx_expr(I, e, atom, operands, shape=None, unit=None, frame=None, extra=()):
     out = mk(list(operands) + list(extra), term=mk_term("cvx", atom, *[o.term for o in operands]))
     out.shape, out.unit, out.frame = shape, unit, frame
     out.tags = {"cvx": "expr", "atom": (atom, list(operands)), "node": e, "notnone": True}
+    if any(not o.tag("cvx") and (o.flat().data or o.flat().shp) for o in operands):
+        I.emit("cvx_entry", e, val=out, atom=atom, operands=[o for o in operands if not o.tag("cvx")])   # numeric data enters a cvx expression
     return out
 
 
@@ -1565,6 +1628,18 @@ MODELS["cvxpy.exp"] = _cvx_elem("exp", lambda x: ONE)
 MODELS["cvxpy.pos"] = _cvx_elem("pos")
 MODELS["cvxpy.neg"] = _cvx_elem("neg")
 MODELS["cvxpy.entr"] = _cvx_elem("entr", lambda x: None)
+
+
+@model("cvxpy.huber")
+def m_cvx_huber(I, e, args, kws):
+    """huber(x, M): x² for |x| ≤ M, 2M|x| − M² beyond — the threshold M is a constant in the units of x"""
+    x = args[0]
+    M_ = arg(args, kws, 1, "M")
+    if isinstance(x.unit, dict) and x.unit and (M_ is None or (M_.known and _num_lit(M_.const)) or M_.unit in (ONE, None)):
+        I.type_error(e, "QTY", f"huber loss with a dimensionless threshold M={'1 (default)' if M_ is None else M_.const if M_.known else '…'} applied "
+                               f"to a residual in [{ustr(x.unit)}]: the quadratic/linear switch sits at a fixed number of the caller's units, so "
+                               f"the fit changes when captures are expressed in other units", sub="mismatch")
+    return cvx_expr(I, e, "huber", [x], x.shape, None, None, extra=list(args[1:]) + list(kws.values()))
 
 
 @model("cvxpy.multiply")
